@@ -1,10 +1,11 @@
 """A world whose stores are uberjob PickleFileStore files in a directory (C08 file variant)."""
 import datetime as dt
+import json
 import os
 import pickle
 
 from uberjob._util import Missing
-from uberjob.stores import PickleFileStore
+from uberjob.stores import BinaryFileStore, JsonFileStore, PickleFileStore, TextFileStore
 
 from vlib import fsfaults, world
 from vlib.specs import R
@@ -48,86 +49,116 @@ class StampingInjector(fsfaults.Injector):
             return fsfaults._real_replace(src, dst, **kw)
 
 
-class FilePickleStore(PickleFileStore):
-    __slots__ = ("world", "idx")
+def _make_file_store(base, ext, encode, decode, load):
+    """A logging subclass of one of uberjob's bundled file stores.  encode/decode map the world's values to what the
+    bundled store accepts (PickleFileStore: the value itself; the text-like stores: its repr)."""
 
-    def __init__(self, w, idx, path):
-        super().__init__(path)
-        self.world = w
-        self.idx = idx
+    class Store(base):
+        __slots__ = ("world", "idx")
+        EXT = ext
 
-    def read(self):
-        w = self.world
-        w.op_begin("rd", self.idx)
-        try:
-            v = PickleFileStore.read(self)
-        except BaseException as e:
-            w.op_fail("rd", self.idx, e)
-            raise
-        w.op_end("rd", self.idx)
-        return R(v)
+        def __init__(self, w, idx, path):
+            base.__init__(self, path)
+            self.world = w
+            self.idx = idx
 
-    def write(self, value):
-        w = self.world
-        w.op_begin("wr", self.idx)
-        try:
-            PickleFileStore.write(self, value)
-        except BaseException as e:
-            w.op_fail("wr", self.idx, e)
-            raise
-        w.op_end("wr", self.idx)
+        def read(self):
+            w = self.world
+            w.op_begin("rd", self.idx)
+            try:
+                v = base.read(self)
+            except BaseException as e:
+                w.op_fail("rd", self.idx, e)
+                raise
+            w.op_end("rd", self.idx)
+            return R(decode(v))
 
-    def get_modified_time(self):
-        w = self.world
-        w.op_begin("mt", self.idx)
-        w.op_end("mt", self.idx)
-        return PickleFileStore.get_modified_time(self)
+        def write(self, value):
+            w = self.world
+            w.op_begin("wr", self.idx)
+            try:
+                base.write(self, encode(value))
+            except BaseException as e:
+                w.op_fail("wr", self.idx, e)
+                raise
+            w.op_end("wr", self.idx)
 
-    # harness-side accessors (not used by uberjob)
-    def _set(self, value):
-        PickleFileStore.write(self, value)
+        def get_modified_time(self):
+            w = self.world
+            w.op_begin("mt", self.idx)
+            w.op_end("mt", self.idx)
+            return base.get_modified_time(self)
 
-    @property
-    def value(self):
-        try:
-            with open(self.path, "rb") as f:
-                return pickle.load(f)
-        except FileNotFoundError:
-            return Missing
-        except Exception as e:  # truncated / torn file
-            with open(self.path, "rb") as f:
-                return Corrupt(f.read(), e)
+        # harness-side accessors (not used by uberjob)
+        def _set(self, value):
+            base.write(self, encode(value))
 
-    @property
-    def time(self):
-        try:
-            return int(round(os.path.getmtime(self.path) - EPOCH_TS))
-        except OSError:
-            return None
+        @property
+        def value(self):
+            try:
+                with open(self.path, "rb") as f:
+                    return load(f)
+            except FileNotFoundError:
+                return Missing
+            except Exception as e:  # truncated / torn file
+                with open(self.path, "rb") as f:
+                    return Corrupt(f.read(), e)
 
-    def harness_delete(self):
-        try:
-            os.remove(self.path)
-        except FileNotFoundError:
-            pass
+        @property
+        def time(self):
+            try:
+                return int(round(os.path.getmtime(self.path) - EPOCH_TS))
+            except OSError:
+                return None
 
-    def __repr__(self):
-        return f"FilePickleStore({self.idx})"
+        def harness_delete(self):
+            try:
+                os.remove(self.path)
+            except FileNotFoundError:
+                pass
+
+        def __repr__(self):
+            return f"{type(self).__name__}({self.idx})"
+
+    return Store
+
+
+def _text_of(value):
+    return repr(value)
+
+
+FilePickleStore = _make_file_store(PickleFileStore, ".pkl", lambda v: v, lambda v: v, pickle.load)
+FilePickleStore.__name__ = FilePickleStore.__qualname__ = "FilePickleStore"
+FileTextStore = _make_file_store(TextFileStore, ".txt", _text_of, lambda v: v, lambda f: f.read().decode("utf-8"))
+FileTextStore.__name__ = FileTextStore.__qualname__ = "FileTextStore"
+FileBinaryStore = _make_file_store(BinaryFileStore, ".bin", lambda v: _text_of(v).encode("utf-8"),
+                                   lambda v: v.decode("utf-8"), lambda f: f.read().decode("utf-8"))
+FileBinaryStore.__name__ = FileBinaryStore.__qualname__ = "FileBinaryStore"
+FileJsonStore = _make_file_store(JsonFileStore, ".json", _text_of, lambda v: v, lambda f: json.load(f))
+FileJsonStore.__name__ = FileJsonStore.__qualname__ = "FileJsonStore"
+KINDS = {"pickle": FilePickleStore, "text": FileTextStore, "binary": FileBinaryStore, "json": FileJsonStore}
+EXTS = tuple(c.EXT for c in KINDS.values())
 
 
 class FileWorld(world.World):
-    def __init__(self, spec, directory, **kw):
+    def __init__(self, spec, directory, kinds=None, **kw):
         self.directory = directory
+        self.kinds = kinds or {}  # entry index -> "pickle" | "text" | "binary" | "json" (default pickle)
         super().__init__(spec, registry=True, **kw)
 
     def new_store(self, i):
-        return FilePickleStore(self, i, os.path.join(self.directory, f"n{i}.pkl"))
+        cls = KINDS[self.kinds.get(i, self.kinds.get(str(i), "pickle"))]
+        return cls(self, i, os.path.join(self.directory, f"n{i}{cls.EXT}"))
+
+    def tick_dt(self, t):
+        # file times are EPOCH + tick seconds (StampingInjector); TZ=UTC in every check process
+        return None if t is None else world.EPOCH + dt.timedelta(seconds=t)
 
     @property
     def clock(self):
         ticks = [0]
         for n in os.listdir(self.directory):
-            if n.endswith(".pkl"):
+            if n.endswith(EXTS):
                 ticks.append(int(round(os.path.getmtime(os.path.join(self.directory, n)) - EPOCH_TS)))
         return max(ticks)
 
